@@ -485,6 +485,12 @@ func (la *lockAnalysis) isRoot(fn *ssa.Function) bool {
 		return true
 	}
 	n := namedOf(recv.Type())
+	// a read accessor of a record that the runner hands out under its lock (the job, a task, the task list): like the record's
+	// exported fields it is meant to be used inside the ReadJob/IterateJobs callbacks — it is not one of the runner's operations.
+	// It is judged in the lock state of its callers inside the module; a method that stores or locks is an operation.
+	if n != nil && la.isRecordType(n) && la.readOnlyMethod(fn) {
+		return false
+	}
 	if n == nil || n.Obj().Exported() {
 		return true
 	}
@@ -1015,4 +1021,74 @@ func (la *lockAnalysis) reaches(a, b ssa.Instruction) bool {
 	nilGuardEdge = saved
 	la.reachMemo[k] = v
 	return v
+}
+
+// isRecordType: the job type, the task type, or a named slice of them (types of values handed out under the runner's lock).
+func (la *lockAnalysis) isRecordType(n *types.Named) bool {
+	if n.Obj() == la.jobT.Obj() || n.Obj() == la.taskT.Obj() {
+		return true
+	}
+	if sl, ok := n.Underlying().(*types.Slice); ok {
+		el := sl.Elem()
+		if p, isP := el.(*types.Pointer); isP {
+			el = p.Elem()
+		}
+		if en := namedOf(el); en != nil && (en.Obj() == la.jobT.Obj() || en.Obj() == la.taskT.Obj()) {
+			return true
+		}
+	}
+	return false
+}
+
+// readOnlyMethod: no store except into its own locals, no map update, no go/defer/send, no mutex operation, and only calls of
+// other read-only methods of record types, builtins and functions outside the module that take no pointer to the record.
+func (la *lockAnalysis) readOnlyMethod(fn *ssa.Function) bool {
+	return la.readOnlyRec(fn, 0)
+}
+
+func (la *lockAnalysis) readOnlyRec(fn *ssa.Function, d int) bool {
+	if fn == nil || fn.Blocks == nil || d > 3 {
+		return false
+	}
+	ok := true
+	allInstrs(fn, func(in ssa.Instruction) {
+		switch x := in.(type) {
+		case *ssa.Store:
+			if _, isAlloc := la.w.resolveAddr(x.Addr).(*ssa.Alloc); isAlloc {
+				return
+			}
+			if fa, isFA := x.Addr.(*ssa.FieldAddr); isFA {
+				if _, baseAlloc := la.w.resolveAddr(fa.X).(*ssa.Alloc); baseAlloc {
+					return
+				}
+			}
+			if ia, isIA := x.Addr.(*ssa.IndexAddr); isIA {
+				if _, baseAlloc := la.w.resolveAddr(ia.X).(*ssa.Alloc); baseAlloc {
+					return
+				}
+			}
+			ok = false
+		case *ssa.MapUpdate, *ssa.Send, *ssa.Go, *ssa.Defer, *ssa.Select:
+			ok = false
+		case *ssa.Call:
+			if _, isB := x.Call.Value.(*ssa.Builtin); isB {
+				return
+			}
+			if la.mxOp(&x.Call) != "" {
+				ok = false
+				return
+			}
+			g := x.Call.StaticCallee()
+			if g == nil {
+				ok = false
+				return
+			}
+			if la.w.InModule(g) {
+				if !la.readOnlyRec(g, d+1) {
+					ok = false
+				}
+			}
+		}
+	})
+	return ok
 }
